@@ -245,7 +245,28 @@ func sumGasLimits(out *vmcommon.VMOutput) *big.Int {
 	return total
 }
 
+// allocCeiling is what any call may allocate; allocBound adds what the ACTUAL size of a call's input and of the stored
+// values it can touch explains (the library builds its output data by repeated string concatenation, which is
+// quadratic in the number of arguments really present: 256 listed SFT entries of 365 bytes allocate 78 MB).  What the
+// statement forbids is allocation driven by a NUMBER an argument encodes, which no actual size bounds.
 const allocCeiling = 8 << 20
+
+func allocBound(c *Call, maxStored int) uint64 {
+	n := uint64(len(c.Args) + 2)
+	return allocCeiling + 4*n*(uint64(inputSize(c))+(n/3+1)*uint64(maxStored)+64)
+}
+
+func (s *Shard) maxStoredValue() int {
+	m := 0
+	for _, a := range s.Accounts {
+		for _, v := range a.Storage {
+			if len(v) > m {
+				m = len(v)
+			}
+		}
+	}
+	return m
+}
 
 // ExecCall runs one call with every monitor.  The returned clauses are all violations found, for all properties.
 func (e *Engine) ExecCall(c *Call) *CallRecord {
@@ -292,6 +313,10 @@ func (e *Engine) ExecCall(c *Call) *CallRecord {
 	if e.PreExec != nil {
 		add(e.PreExec(c)...)
 	}
+	maxStored := 0
+	if len(c.Args) > 32 {
+		maxStored = e.W.Shards[c.Shard].maxStoredValue()
+	}
 	res := e.W.Exec(c)
 	rec.Res = res
 	e.NCalls++
@@ -312,8 +337,9 @@ func (e *Engine) ExecCall(c *Call) *CallRecord {
 			add(clause([]string{"C11"}, c.Fn+"/result-shape", "%s returned %s together with error %v", c.String(), rc, res.Err))
 		}
 	}
-	if res.Alloc > allocCeiling {
-		add(clause([]string{"C11"}, c.Fn+"/allocation", "%s allocated %d bytes (input is %d bytes)", c.String(), res.Alloc, inputSize(c)))
+	if res.Alloc > allocCeiling && res.Alloc > allocBound(c, maxStored) {
+		add(clause([]string{"C11"}, c.Fn+"/allocation", "%s allocated %d bytes (input is %d bytes in %d arguments, largest stored value %d bytes)",
+			c.String(), res.Alloc, inputSize(c), len(c.Args), maxStored))
 	}
 	// ---- C13: the input is not modified
 	if res.InputMut != "" {
@@ -436,7 +462,11 @@ func (e *Engine) ExecCall(c *Call) *CallRecord {
 	}
 
 	add(attachedCallCheck(e.M, c, res)...)
+	nMsgs := len(m.Msgs)
 	add(v.Apply(res)...)
+	if len(m.Msgs) == nMsgs {
+		e.genericContinuation(c, res)
+	}
 
 	// ---- C16 / C06: the charge
 	if v.Charge != nil && res.Out != nil && spent.Cmp(provided) <= 0 {
@@ -506,11 +536,11 @@ func attachedCallCheck(m *Model, c *Call, res *Result) []Clause {
 	wantFn, wantArgs := string(args[idx]), args[idx+1:]
 	ot := firstTransfer(res, dest)
 	if ot == nil {
-		return []Clause{clause(pC10, c.Fn+"/attached-call-lost", "%s carries the contract call %q for contract %s on this shard but emitted no output transfer for it", c.String(), wantFn, shortAddr(dest))}
+		return []Clause{clause([]string{"C10", "C12"}, c.Fn+"/attached-call-lost", "%s carries the contract call %q for contract %s on this shard but emitted no output transfer for it", c.String(), wantFn, shortAddr(dest))}
 	}
 	fn, got, err := TxDecode(string(ot.Data))
 	if err != nil || fn != wantFn || !argsEqual(got, wantArgs) {
-		return []Clause{clause(pC10, c.Fn+"/attached-call-content", "%s carries the contract call %q %x but the emitted data is %q", c.String(), wantFn, wantArgs, ot.Data)}
+		return []Clause{clause([]string{"C10", "C12"}, c.Fn+"/attached-call-content", "%s carries the contract call %q %x but the emitted data is %q", c.String(), wantFn, wantArgs, ot.Data)}
 	}
 	return nil
 }
@@ -661,6 +691,46 @@ func (e *Engine) parserAgreement(c *Call, v *Verdict, parseArgs [][]byte) []Clau
 		bad("reports call %q %x, the input carries %q %x", parsed.CallFunction, parsed.CallArgs, callFn, callArgs)
 	}
 	return out
+}
+
+// genericContinuation is N3 in general: whatever succeeds on the sender's shard and is addressed to another shard goes
+// on there - a user's own transaction as it is, a contract's call through the output transfer the function emitted. The
+// model creates its own messages for the operations it expects to travel; anything else that travels is recorded here
+// so that it IS executed on the destination shard (where the model expects it to have no effect).
+func (e *Engine) genericContinuation(c *Call, res *Result) {
+	m := e.M
+	if c.MsgID != 0 || !m.local(c.Caller, c.Shard) {
+		return
+	}
+	dstShard := m.shardOf(c.Rcv)
+	if int(dstShard) < m.NShards && int(dstShard) != c.Shard && !bytes.Equal(c.Caller, c.Rcv) && !vmcommon.IsSmartContractAddress(c.Caller) && !vmcommon.IsSystemAccountAddress(c.Rcv) {
+		m.newMsg(&Msg{Kind: "generic", Fn: c.Fn, Caller: cp(c.Caller), Rcv: cp(c.Rcv), Args: args2bytes(c.Args), Gas: c.Gas, CallType: c.CallType})
+		return
+	}
+	if res.Out == nil {
+		return
+	}
+	for key, oa := range res.Out.OutputAccounts {
+		if oa == nil || int(m.shardOf([]byte(key))) >= m.NShards || int(m.shardOf([]byte(key))) == c.Shard {
+			continue
+		}
+		for _, ot := range oa.OutputTransfers {
+			fn, args, err := TxDecode(string(ot.Data))
+			if err != nil || !isBuiltInName(fn) {
+				continue
+			}
+			m.newMsg(&Msg{Kind: "generic", Fn: fn, Caller: cp(c.Caller), Rcv: []byte(key), Args: args, Gas: ot.GasLimit, GasLocked: ot.GasLocked, CallType: int(ot.CallType)})
+		}
+	}
+}
+
+func isBuiltInName(fn string) bool {
+	for _, n := range allFunctionNames {
+		if n == fn {
+			return true
+		}
+	}
+	return false
 }
 
 // afterFailedDelivery applies N5: a failed transfer delivery becomes a refund to the original sender; other failed
